@@ -331,8 +331,10 @@ struct Case {
     expect: Expect,
 }
 
-const STYLE_NAMES: [&str; 8] = [
+const STYLE_NAMES: [&str; 15] = [
     "plain", "block", "if", "fstring", "method", "match", "while", "arith",
+    // round 4: syntactic positions the type checker visits through other expression kinds
+    "call-argument", "match-arm", "else", "assign", "list-literal", "and-rhs", "record-field",
 ];
 
 impl Item {
@@ -378,7 +380,7 @@ fn pick_root(p: &mut Prng, consts: &[usize], r: &[Vec<bool>]) -> usize {
 fn gen_ref(p: &mut Prng, to: usize, same_module: bool) -> Ref {
     let path = if same_module { if p.chance(1, 4) { 1 } else { 0 } } else { p.below(4) as u8 };
     let multi = if p.chance(1, 3) { 1 + p.below(MULTI.len() as u64 - 1) as u8 } else { 0 };
-    Ref { to, style: p.below(8) as u8, path, guarded: false, depth: p.below(3), form: p.below(12) as u8, multi }
+    Ref { to, style: p.below(STYLE_NAMES.len() as u64) as u8, path, guarded: false, depth: p.below(3), form: p.below(12) as u8, multi }
 }
 
 fn plain_item(is_const: bool, n: usize, module: usize) -> Item {
@@ -395,7 +397,7 @@ fn plain_ref(to: usize) -> Ref {
 /// compound value in a function a constant needs.
 fn boundary_count() -> u64 {
     let forms: usize = READ_FORMS.iter().map(|f| f.len()).sum();
-    (CTX_FORMS.len() * 5 + forms * 3 + (LOCAL_NAMES.len() - 1) * 2 + multi_family() + scc_family(false) + init_family() + lead_family()) as u64
+    (CTX_FORMS.len() * 5 + forms * 3 + (LOCAL_NAMES.len() - 1) * 2 + multi_family() + scc_family(false) + init_family() + lead_family() + style_family()) as u64
 }
 
 /// Constants of every layout class × where the effect of the initialiser sits × who depends
@@ -482,6 +484,33 @@ fn lead_graph(g: usize) -> (Vec<Item>, Expect) {
     items[3].uses_ctx = true;
     items[3].ctx_form = (g % CTX_FORMS.len()) as u8;
     (items, Expect::Context(if lead_is_const { "via-constant-then-function-cycle" } else { "via-function-then-function-cycle" }))
+}
+
+/// Every syntactic position a reference can stand in (`STYLE_NAMES`) × what refers to what:
+/// a constant reading a constant, a constant calling a function, a function a constant calls
+/// reading a constant (the position is in the function's body).
+fn style_family() -> usize {
+    STYLE_NAMES.len() * 3
+}
+
+fn style_graph(g: usize) -> (Vec<Item>, Expect) {
+    let style = (g % STYLE_NAMES.len()) as u8;
+    let place = g / STYLE_NAMES.len();
+    let m = |k: usize| (g + k) % 4;
+    let mut items = match place {
+        // K0 → K1
+        0 => vec![plain_item(true, 0, m(0)), plain_item(true, 1, m(1))],
+        // K0 → f1
+        1 => vec![plain_item(true, 0, m(0)), plain_item(false, 1, m(1))],
+        // K0 → f1 → K2
+        _ => vec![plain_item(true, 0, m(0)), plain_item(false, 1, m(1)), plain_item(true, 2, m(2))],
+    };
+    let n = items.len();
+    for i in 0..n - 1 {
+        items[i].refs.push(plain_ref(i + 1));
+    }
+    items[n - 2].refs[0].style = style;
+    (items, Expect::Accept)
 }
 
 /// several read sites of one constant on different paths: shape × type of the constant × where the body runs
@@ -680,8 +709,13 @@ fn boundary_graph(g: u64) -> (Vec<Item>, Expect) {
         if g < init_family() {
             return init_graph(g);
         }
+        g -= init_family();
         // --- a ring with a context read behind a lead
-        return lead_graph(g - init_family());
+        if g < lead_family() {
+            return lead_graph(g);
+        }
+        // --- every syntactic position of a reference × what is referred to
+        return style_graph(g - lead_family());
     }
     // --- local compound values: in a function a constant calls / in the initialiser
     let local = (1 + g / 2) as u8;
@@ -1098,7 +1132,21 @@ fn render(case: &Case) -> Files {
                 6 => format!(
                     "{{ let acc: u64 = 0; let i: u64 = 0; while i < 1 {{ acc = acc + {val}; i = i + 1; }} acc }}"
                 ),
-                _ => format!("({val} + 0)"),
+                7 => format!("({val} + 0)"),
+                // argument of a call
+                8 => format!("idu({val})"),
+                // body of a match arm (style 5 is the examinee)
+                9 => format!("(match Option.Some(0) {{ Some(v) => {val} + v, None => 0, }})"),
+                // else branch
+                10 => format!("(if 1 == 0 {{ 0 }} else {{ {val} }})"),
+                // right-hand side of an assignment
+                11 => format!("{{ let t: u64 = 0; t = {val}; t }}"),
+                // element of a list literal
+                12 => format!("(match [{val}].get(0) {{ Some(v) => v, None => 0, }})"),
+                // right operand of `&&`
+                13 => format!("{{ let t: u64 = 0; if (1 == 1) && ({{ t = {val}; 1 == 1 }}) {{ t }} else {{ 0 }} }}"),
+                // field of an anonymous record literal
+                _ => format!("{{ let r = {{ n: {val} }}; r.n }}"),
             };
             let e = if pre.is_empty() { e } else { format!("{{ {pre}{e} }}") };
             let e = match local_import {
